@@ -28,7 +28,8 @@
   unrepaired tree for the refutation theorems.
 
   Not modelled (restrictions of the model, named in design.d/C16.md): `match_pattern`, `is_text`,
-  `is_json`; tuples; NaN, inf, negative zero and floats that are not half-integers; dict keys that `json.dumps` rejects (tuples, …);
+  `is_json`; tuples; inf, negative zero and floats that are not half-integers (NaN IS modelled: `Val.nan`, one value, no object
+  identity — see `Props/C17Values.lean`); values of classes `json.dumps` cannot write (see `Model/MatcherXVal.lean`); dict keys that `json.dumps` rejects (tuples, …);
   non-list arguments of `has_items/has_only_items/is_in`; `is_between` bounds other than int/float;
   `DISPLAY_DETAILS_WHEN_EQUAL = False`; `\w` is ASCII-only in the verb transformation.
   Core Lean only.
@@ -143,6 +144,9 @@ inductive Val
   | bool (b : Bool)
   | int (i : Int)
   | float (h : Int)                         -- the float `h / 2`
+  | nan                                     -- a float NaN (`math.nan`, `float("nan")`, `json.loads("NaN")`, `inf - inf`, …): NOT equal
+                                            -- to itself.  A `Val` has no identity: whichever object it is, the model gives it
+                                            -- the same meaning (what Python does with two distinct NaN objects)
   | str (s : Str)
   | list (xs : List Val)
   | dict (ks : List DKey) (vs : List Val)   -- insertion-ordered `{ks[i]: vs[i]}`, keys pairwise distinct under `==`
@@ -158,7 +162,7 @@ inductive Ty
 deriving Repr, DecidableEq, Inhabited
 
 def Val.ty : Val → Ty
-  | .none => .none | .bool _ => .bool | .int _ => .int | .float _ => .float
+  | .none => .none | .bool _ => .bool | .int _ => .int | .float _ => .float | .nan => .float
   | .str _ => .str | .list _ => .list | .dict _ _ => .dict
 
 /-- numeric value in halves (bool ⊂ int ⊂ float, as Python compares them) -/
@@ -176,6 +180,7 @@ def DKey.toVal : DKey → Val
 def Val.toKey? : Val → Option DKey
   | .none => some .none | .bool b => some (.bool b) | .int i => some (.int i) | .float h => some (.float h)
   | .str s => some (.str s)
+  | .nan => Option.none                      -- hashable, but no key of a modelled dict is a NaN: see `pyIn`
   | .list _ => Option.none | .dict _ _ => Option.none
 
 /-- `d[k]` on the association representation of a dict (keys compared the way `dict` does: `hash` + `==`) -/
@@ -241,6 +246,8 @@ def pyCmp (op : Ord) : Val → Val → Except PyErr Bool
   | .dict _ _, _ => .error .typeError
   | .str _, _ => .error .typeError
   | .list _, _ => .error .typeError
+  | .nan, b => if b.ty = .bool ∨ b.ty = .int ∨ b.ty = .float then .ok false else .error .typeError   -- every ordering with a NaN is False
+  | a, .nan => if a.ty = .bool ∨ a.ty = .int ∨ a.ty = .float then .ok false else .error .typeError
   | a, b =>
     match numOf a, numOf b with
     | some x, some y => .ok (op.onInt x y)
@@ -279,6 +286,9 @@ def pyIn (x : Val) : Val → Except PyErr Bool
     | .str n => .ok (isInfix n s)
     | _ => .error .typeError                    -- 'in <string>' requires string as left operand
   | .dict ks vs =>
+    match x with
+    | .nan => .ok false                         -- hashable, equal to no key
+    | _ =>
     match x.toKey? with
     | some k => .ok ((lookup k ks vs).isSome)
     | Option.none => .error .typeError          -- unhashable type: 'list' / 'dict'
@@ -334,6 +344,7 @@ def jsonify : Val → Str
   | .bool false => c!"false"
   | .int i => intStr i
   | .float h => halfStr h
+  | .nan => c!"NaN"                           -- `json.dumps(float("nan"))` (allow_nan is on)
   | .str s => jsonStr s
   | .list xs => c!"[" ++ joinWith c!", " (jsonifyList xs) ++ c!"]"
   | .dict ks vs => c!"{" ++ joinWith c!", " (jsonifyEntries ks vs) ++ c!"}"
@@ -459,7 +470,7 @@ def TyM.name : TyM → Str
 
 /-- `IsValueOfType._get_value_type_name` -/
 def valueTypeName : Val → Str
-  | .int _ => c!"integer" | .float _ => c!"float" | .str _ => c!"string"
+  | .int _ => c!"integer" | .float _ => c!"float" | .nan => c!"float" | .str _ => c!"string"
   | .dict _ _ => c!"collection" | .list _ => c!"array"
   | .bool _ => c!"<class 'bool'>" | .none => c!"<class 'NoneType'>"
 
